@@ -9,6 +9,59 @@
 // config parses, every reference resolves, every object reachable from the
 // references before or after the operation is present and decodable, and the
 // index decodes.
+//
+// Real: the whole mutating path of go-git for every kind — porcelain
+// (Worktree.Commit/Add/Checkout/Reset, Repository.RepackObjects/Prune/
+// SetConfig/CreateTag/DeleteTag), storage entry points (PackRefs, Set/Remove/
+// CheckAndSetReference on loose, packed and stale-packed names, SetShallow,
+// SetIndex, PackfileWriter, DeleteLooseObject, DeleteOldObjectPackAndIndex,
+// AddAlternate, AppendReflog; storeops_test.go), the linked-worktree manager
+// x/plumbing/worktree (Add/Remove), and the network kinds (net_test.go):
+// Remote.Fetch (v0/v1/v2, tags, depth/deepening of a shallow client, prune,
+// forced updates, loose or packed client refs), git.Clone with checkout,
+// Remote.Push (client side: remote-tracking refs) and transport.ReceivePack
+// (server side: pack ingestion, creates, updates, forced updates, deletes,
+// several commands per push, loose or packed server refs), client and server
+// both go-git, on two separate disks, joined by sim/simnet.
+// Stubbed: the disks (simfs, with crash point and torn final operation), the
+// network (simnet byte streams), the clock (synctest bubble for network kinds).
+//
+// Plan space: (generated repository or pair of repositories) x one operation
+// with generated arguments; Expand turns a plan into one run per mutating disk
+// operation k of the measured call on the disk that crashes (dry run counts
+// them), with torn variants. The quick tier samples long runs of identical
+// bulk writes (see sampleQuick), the thorough tier enumerates every k.
+// Determinism: crash points are ordinals, so the mutation sequence of the
+// measured call must be a function of the plan. det_test.go repeats every
+// kind's dry run and crashing runs and compares sequences and end states;
+// net_test.go lists the map-iteration sites in go-git that the workloads avoid.
+//
+// Oracle (same for every kind, on a copy of the frozen image, fresh values):
+// git.Open succeeds; Config parses; IterReferences works and every reference
+// is a non-zero hash or a symbolic reference that resolves (HEAD may name an
+// unborn branch only if it named the same unborn branch before, or, during a
+// clone, if it is the refs/heads/.invalid marker go-git and git write while a
+// clone is in progress); no reference that existed before is unreadable unless
+// the operation deletes it; every object reachable from the references before
+// the operation and from the references in the crash image is present and
+// decodes (parents of commits listed in the shallow file are not followed); the
+// index decodes. A clone that has not yet created HEAD has not made a repository
+// yet: "does not exist" is accepted only while .git/HEAD, .git/packed-refs and
+// every file under .git/refs are absent. Thorough tier: git fsck
+// --connectivity-only and for-each-ref on an exported copy (skipped while HEAD
+// is the clone-in-progress marker, which git itself reports as invalid; asked
+// for every eighth of the bulk idx/rev/pack-stream write points only).
+//
+// Not judged, deliberately: leftover temporary files, orphan .idx/.rev files
+// and unreferenced packs; the content of reflogs; the linked worktree's own
+// metadata under .git/worktrees/<name> (the statement is about the repository;
+// it is written and removed file by file by go-git as by git) — for the
+// worktree kinds the MAIN repository is judged; whether a reference holds the
+// old or the new value; the peer repository of a network kind; a power-loss
+// model (go-git never syncs; see DESIGN 3.3).
+//
+// Signatures: C21|<kind>|<symptom>[:<ref or object class>]|<crashing operation
+// class>:<path category>[:torn].
 package c21
 
 import (
@@ -43,18 +96,51 @@ type Plan struct {
 	CrashAt  int    `json:"crash_at"` // 0 = no crash (dry run)
 	Torn     int    `json:"torn"`
 	Git      bool   `json:"git"` // also ask git fsck on the exported image
+	// Muts is informational: the number of mutating disk operations the dry
+	// run of this plan counted (set by Expand).
+	Muts int `json:"muts,omitempty"`
+	// Net describes the two repositories and the request of the network kinds
+	// (fetch, clone, receive-pack, push); nil for every other kind.
+	Net *NetPlan `json:"net,omitempty"`
 }
 
-var opKinds = []string{"commit", "add", "checkout-branch", "checkout-new", "reset-hard", "reset-mixed", "repack", "repack-refdelta",
+// localKinds are the porcelain / storage calls of the first version of this
+// check; storeKinds (storeops_test.go) and netKinds (net_test.go) were added later.
+var localKinds = []string{"commit", "add", "checkout-branch", "checkout-new", "reset-hard", "reset-mixed", "repack", "repack-refdelta",
 	"prune", "packrefs", "setconfig", "tag", "tag-delete", "branch-delete", "detach-head", "setshallow", "commit-amend-branch"}
 
+var opKinds = append(append(append([]string{}, localKinds...), storeKinds...), netKinds...)
+
 func genPlan(r *core.Rand, tier string) any {
-	p := &Plan{RepoSeed: r.Uint64() % 64, Repack: r.Bool(), PackRefs: r.Bool(), Op: opKinds[r.Intn(len(opKinds))], OpSeed: r.Uint64() % 1000}
+	// a third of the plans are network kinds (fetch twice as often as the others), a
+	// quarter storage-level kinds, the rest the porcelain kinds
+	var op string
+	switch k := r.Intn(12); {
+	case k < 4:
+		op = r.Pick("fetch", "fetch", "clone", "receive-pack", "receive-pack", "push")
+	case k < 7:
+		op = storeKinds[r.Intn(len(storeKinds))]
+	default:
+		op = localKinds[r.Intn(len(localKinds))]
+	}
+	p := &Plan{RepoSeed: r.Uint64() % 64, Repack: r.Bool(), PackRefs: r.Bool(), Op: op, OpSeed: r.Uint64() % 1000}
 	if tier == "thorough" {
 		p.RepoSeed = r.Uint64() % 4096
 		p.Git = r.Chance(1, 4)
 	}
+	if isNetKind(op) {
+		p.RepoSeed, p.Repack, p.PackRefs = 0, false, false
+		p.Net = genNet(r, op, tier)
+	}
 	return p
+}
+
+// preState is what the oracle knows about the judged repository before the
+// measured call.
+type preState struct {
+	refs   map[string]plumbing.Hash // references that existed (HEAD excluded)
+	roots  []plumbing.Hash          // their values, sorted
+	unborn string                   // target of HEAD when HEAD named an unborn branch, else ""
 }
 
 type base struct {
@@ -89,7 +175,10 @@ func getBase(p *Plan) *base {
 }
 
 // runOp performs the mutating operation. Errors are returned, not judged.
-func runOp(p *Plan, env *gen.Env, m *gen.Model) error {
+func runOp(p *Plan, env *gen.Env, m *gen.Model, ctx *opCtx) error {
+	if isStoreKind(p.Op) {
+		return runStoreOp(p, env, m, ctx)
+	}
 	r := core.NewRand(p.OpSeed + 17)
 	repo := env.Repo
 	w, err := repo.Worktree()
@@ -179,6 +268,10 @@ func pathCat(p string) string {
 		return "config"
 	case p == "shallow":
 		return "shallow"
+	case p == "objects/info/alternates":
+		return "alternates"
+	case strings.HasPrefix(p, "worktrees/"):
+		return "wt-meta" // metadata of a linked worktree (.git/worktrees/<name>/...)
 	case strings.HasPrefix(p, "refs/"):
 		return "loose-ref"
 	case strings.HasPrefix(p, "logs/"):
@@ -193,6 +286,8 @@ func pathCat(p string) string {
 		return "idx"
 	case strings.HasSuffix(p, ".rev"):
 		return "rev"
+	case strings.HasSuffix(p, ".promisor"):
+		return "promisor"
 	case strings.HasPrefix(p, "objects/"):
 		return "loose-object"
 	}
@@ -204,23 +299,111 @@ type mutInfo struct {
 	cat   string
 }
 
-// dryRun returns the mutating operations the planned call performs.
-func dryRun(p *Plan) ([]mutInfo, error) {
+// normalise makes any decodable plan executable (the shrinker zeroes and
+// deletes fields).
+func normalise(p *Plan) {
+	known := false
+	for _, k := range opKinds {
+		if k == p.Op {
+			known = true
+		}
+	}
+	if !known {
+		p.Op = "commit"
+	}
+	if isNetKind(p.Op) {
+		if p.Net == nil {
+			p.Net = &NetPlan{}
+		}
+		p.Net.clamp(p.Op)
+	}
+}
+
+// measured is one execution of the planned call on a fresh copy of the
+// generated state, with the crash armed if the plan says so.
+type measured struct {
+	disk     *simfs.Disk // the recorded, crashing and judged disk
+	pre      *preState
+	deleted  map[string]bool // references the call legitimately removes
+	opErr    error
+	inconc   string
+	msg      string
+	panicked any
+}
+
+// measure runs the planned call. It is the only place that executes go-git
+// mutations under measurement; the dry run is measure with CrashAt == 0.
+func measure(t *testing.T, p *Plan) *measured {
 	hooks.Deterministic(true)
+	normalise(p)
+	if isNetKind(p.Op) {
+		r := runNet(t, p)
+		m := &measured{disk: r.disk, opErr: r.opErr, inconc: r.inconc, panicked: r.panicked}
+		if r.base != nil {
+			m.pre, m.deleted = r.base.pre, r.base.deleted
+			if r.base.err != nil {
+				m.msg = r.base.err.Error()
+			}
+		}
+		return m
+	}
+	m := &measured{}
 	b := getBase(p)
 	if b.err != nil {
-		return nil, b.err
+		m.inconc, m.msg = "setup-failed", b.err.Error()
+		return m
 	}
 	d := b.disk.Clone()
 	env, err := gen.Open(d, "/w", "op", filesystem.Options{})
 	if err != nil {
-		return nil, err
+		m.inconc = "setup-open-failed"
+		return m
 	}
+	ctx, err := prepOp(p, env, b.model)
+	if err != nil {
+		m.inconc, m.msg = "prep-failed", err.Error()
+		return m
+	}
+	if isStoreKind(p.Op) {
+		// the measured call starts from a brand-new Storage, like every other kind
+		_ = env.Storage.Close()
+		if env, err = gen.Open(d, "/w", "op", filesystem.Options{}); err != nil {
+			m.inconc = "setup-open-failed"
+			return m
+		}
+	}
+	m.disk, m.deleted = d, ctx.deleted
+	m.pre = &preState{refs: map[string]plumbing.Hash{}, roots: append([]plumbing.Hash{}, b.roots...)}
+	for n, h := range b.model.Refs {
+		m.pre.refs[n] = h
+	}
+	for n, h := range ctx.preExtra {
+		m.pre.refs[n] = h
+		m.pre.roots = append(m.pre.roots, h)
+	}
+	sort.Slice(m.pre.roots, func(i, j int) bool { return m.pre.roots[i].String() < m.pre.roots[j].String() })
 	d.ResetCounters()
 	d.Record = true
-	_ = runOp(p, env, b.model)
+	if p.CrashAt > 0 {
+		d.SetCrash(simfs.Crash{AtMut: p.CrashAt, Torn: p.Torn})
+	}
+	m.opErr = runOp(p, env, b.model, ctx)
+	return m
+}
+
+// dryRun returns the mutating operations the planned call performs.
+func dryRun(t *testing.T, p *Plan) ([]mutInfo, error) {
+	c := *p
+	c.CrashAt, c.Torn = 0, 0
+	m := measure(t, &c)
+	if m.inconc != "" || m.disk == nil {
+		return nil, fmt.Errorf("%s %s", m.inconc, m.msg)
+	}
+	if m.panicked != nil {
+		return nil, fmt.Errorf("panic in dry run: %v", m.panicked)
+	}
 	var out []mutInfo
-	for _, op := range d.Log {
+	for _, op := range m.disk.Log {
 		if op.MutN > 0 {
 			out = append(out, mutInfo{op.Class, pathCat(op.Path)})
 		}
@@ -228,32 +411,88 @@ func dryRun(p *Plan) ([]mutInfo, error) {
 	return out, nil
 }
 
+// Quick-tier sampling of crash points (the thorough tier enumerates every
+// point). Long runs of identical bulk writes - the hundreds of 4-byte writes of
+// an .idx / .rev encoder, the chunks of a pack stream, the loose objects a
+// repack deletes one by one - are all the same situation for the property (the
+// same files exist, one of them a little longer): of a run of more than
+// quickRun consecutive mutations of the same class and path category the first
+// and last quickEdge and quickMid drawn ones are kept. Everything else (every
+// create, rename, chmod, remove, reference / HEAD / shallow / index / config
+// write) is always kept. If a plan still has more than quickCap points, the
+// first quickHead, the last quickTail and a drawn sample of the middle remain.
+const (
+	quickRun  = 12
+	quickEdge = 1
+	quickMid  = 2
+	quickCap  = 110
+	quickHead = 35
+	quickTail = 55
+)
+
+func sampleQuick(muts []mutInfo, r *core.Rand) []int {
+	var ks []int
+	for i := 0; i < len(muts); {
+		j := i
+		for j < len(muts) && muts[j] == muts[i] {
+			j++
+		}
+		n := j - i
+		if n <= quickRun {
+			for k := i; k < j; k++ {
+				ks = append(ks, k+1)
+			}
+		} else {
+			pick := map[int]bool{}
+			for e := 0; e < quickEdge; e++ {
+				pick[i+e], pick[j-1-e] = true, true
+			}
+			for e := 0; e < quickMid; e++ {
+				pick[i+quickEdge+r.Intn(n-2*quickEdge)] = true
+			}
+			for k := i; k < j; k++ {
+				if pick[k] {
+					ks = append(ks, k+1)
+				}
+			}
+		}
+		i = j
+	}
+	if len(ks) > quickCap {
+		keep := append(append([]int{}, ks[:quickHead]...), ks[len(ks)-quickTail:]...)
+		mid := ks[quickHead : len(ks)-quickTail]
+		seen := map[int]bool{}
+		for i := 0; i < quickCap-quickHead-quickTail; i++ {
+			k := mid[r.Intn(len(mid))]
+			if !seen[k] {
+				seen[k] = true
+				keep = append(keep, k)
+			}
+		}
+		sort.Ints(keep)
+		ks = keep
+	}
+	return ks
+}
+
 func expand(t *testing.T, pa any, tier string) []any {
 	p := pa.(*Plan)
-	muts, err := dryRun(p)
+	normalise(p)
+	muts, err := dryRun(t, p)
 	if err != nil {
 		return []any{p}
 	}
+	p.Muts = len(muts)
 	var out []any
 	ks := make([]int, 0, len(muts))
 	for k := 1; k <= len(muts); k++ {
 		ks = append(ks, k)
 	}
-	if tier != "thorough" && len(ks) > 160 {
-		r := core.NewRand(p.OpSeed)
-		keep := append(append([]int{}, ks[:50]...), ks[len(ks)-60:]...)
-		for i := 0; i < 50; i++ {
-			keep = append(keep, ks[50+r.Intn(len(ks)-110)])
-		}
-		ks = keep
+	if tier != "thorough" {
+		ks = sampleQuick(muts, core.NewRand(p.OpSeed))
 	}
 	for _, k := range ks {
 		mi := muts[k-1]
-		if mi.cat == "worktree" && k < len(muts) {
-			// a crash between two worktree-file mutations is covered by the
-			// next .git mutation's "not applied" case only if nothing in
-			// between matters; keep one variant anyway (cheap).
-		}
 		c := *p
 		c.CrashAt, c.Torn = k, 1
 		out = append(out, &c)
@@ -276,40 +515,33 @@ func expand(t *testing.T, pa any, tier string) []any {
 	return out
 }
 
+func isRefCat(c string) bool {
+	return c == "loose-ref" || c == "packed-refs" || c == "HEAD"
+}
+
 func execPlan(t *testing.T, pa any) (out core.Outcome) {
-	hooks.Deterministic(true)
 	p := pa.(*Plan)
-	known := false
-	for _, k := range opKinds {
-		if k == p.Op {
-			known = true
+	m := measure(t, p)
+	if m.inconc != "" || m.disk == nil {
+		out.Inconclusive = m.inconc
+		if out.Inconclusive == "" {
+			out.Inconclusive = "no-run"
 		}
-	}
-	if !known {
-		p.Op = "commit"
-	}
-	b := getBase(p)
-	if b.err != nil {
-		out.Inconclusive = "setup-failed"
-		out.Message = b.err.Error()
+		out.Message = m.msg
 		return out
 	}
-	d := b.disk.Clone()
-	env, err := gen.Open(d, "/w", "op", filesystem.Options{})
-	if err != nil {
-		out.Inconclusive = "setup-open-failed"
-		return out
-	}
-	d.ResetCounters()
-	d.Record = true
-	if p.CrashAt > 0 {
-		d.SetCrash(simfs.Crash{AtMut: p.CrashAt, Torn: p.Torn})
-	}
-	opErr := runOp(p, env, b.model)
+	d := m.disk
+	opErr := m.opErr
 	out.Steps = d.OpCount()
 	crashOp := "none"
 	var trace []string
-	for _, op := range d.Log {
+	var crashRec *simfs.Op
+	packRenamed, refMutAfterPack, removesRef := false, false, false
+	for _, v := range m.deleted {
+		removesRef = removesRef || v
+	}
+	for i := range d.Log {
+		op := d.Log[i]
 		// only mutating operations enter the event log: reads of go-git's
 		// pack-indexer goroutine interleave with the writer's writes outside
 		// any seam and do not change the image
@@ -317,8 +549,16 @@ func execPlan(t *testing.T, pa any) (out core.Outcome) {
 			if len(trace) < 600 {
 				trace = append(trace, fmt.Sprintf("m%d %s %s %s %s %s", op.MutN, op.Class, op.Path, op.Path2, op.Detail, op.Err))
 			}
+			crashing := strings.Contains(op.Detail, "CRASH")
+			if packRenamed && !crashing && (isRefCat(pathCat(op.Path)) || (op.Path2 != "" && isRefCat(pathCat(op.Path2)))) {
+				refMutAfterPack = true
+			}
+			if op.Class == simfs.OpRename && pathCat(op.Path2) == "pack" {
+				packRenamed = true
+			}
 		}
 		if strings.Contains(op.Detail, "CRASH") {
+			crashRec = &d.Log[i]
 			crashOp = fmt.Sprintf("%s:%s", op.Class, pathCat(op.Path))
 			if op.Class == simfs.OpWrite && p.Torn >= 2 {
 				crashOp += ":torn"
@@ -330,12 +570,22 @@ func execPlan(t *testing.T, pa any) (out core.Outcome) {
 	}
 	out.Trace = trace
 	out.LogHash = core.HashStrings(trace) + "/" + fmt.Sprint(d.MutCount())
+	if p.CrashAt == 1 && p.Torn == 1 {
+		// once per plan: how many mutating operations the measured call has
+		out.Probe("plans:" + p.Op)
+		out.ProbeN("mutations:"+p.Op, p.Muts)
+	}
 	if !d.Crashed() {
 		if p.CrashAt > 0 {
 			out.Inconclusive = "crash-point-beyond-end"
 		}
 		if opErr != nil {
 			out.Probe("op-error-without-crash:" + p.Op)
+		}
+		if m.panicked != nil {
+			out.Inconclusive = "bubble-panic-without-crash"
+			out.Message = fmt.Sprint(m.panicked)
+			return out
 		}
 		// no crash: still check the end state (a completed operation must
 		// leave a good repository too)
@@ -345,16 +595,63 @@ func execPlan(t *testing.T, pa any) (out core.Outcome) {
 		if opErr == nil {
 			out.Probe("op-returned-nil-after-crash")
 		}
+		if m.panicked != nil {
+			// the image is frozen and can be judged; what is left over is reported
+			out.Probe("bubble-panic-after-crash:" + p.Op)
+		}
+		// ---- reach ----
+		cat := pathCat(crashRec.Path)
+		netOrPack := isNetKind(p.Op) || p.Op == "packwriter"
+		if netOrPack && packRenamed && !refMutAfterPack && !isRefCat(cat) && !isRefCat(pathCat(crashRec.Path2)) {
+			// the pack is in place (the crashing operation is its rename or a later
+			// one) and no reference has been touched since
+			switch p.Op {
+			case "receive-pack":
+				out.Probe("crash-between-pack-rename-and-ref-update:receive-pack")
+			case "fetch", "clone":
+				out.Probe("crash-between-pack-rename-and-ref-update:fetch")
+			default:
+				out.Probe("crash-between-pack-rename-and-ref-update:" + p.Op)
+			}
+		}
+		if netOrPack && cat == "tmp-obj" && crashRec.Class == simfs.OpWrite && strings.Contains(crashRec.Path, "tmp_pack_") {
+			out.Probe("crash-during-pack-write")
+		}
+		if cat == "shallow" && isNetKind(p.Op) {
+			out.Probe("crash-during-shallow-write")
+		}
+		if removesRef && (strings.Contains(crashRec.Path, "._packed-refs") || pathCat(crashRec.Path2) == "packed-refs") {
+			out.Probe("crash-during-packed-refs-rewrite-by-remove")
+		}
+	}
+	bulkWrite := false
+	if crashRec != nil && crashRec.Class == simfs.OpWrite {
+		c := pathCat(crashRec.Path)
+		bulkWrite = c == "idx" || c == "rev" || c == "tmp-obj"
 	}
 	post := d.Clone()
 	out.StateHash = post.Digest("/w/.git", nil)
-	sym, msg := oracle(post, b, p)
+	sym, msg := oracle(post, m.pre, m.deleted, p, out.Probe)
 	if sym != "" {
 		out.Fail(fmt.Sprintf("C21|%s|%s|%s", p.Op, sym, crashOp), "%s (crash at mutation %d torn=%d: %s)", msg, p.CrashAt, p.Torn, crashOp)
 		return out
 	}
 	if p.Git && d.Crashed() {
-		if sym, msg := gitOracle(post); sym != "" {
+		if out.Probes["crash-in-clone-before-HEAD"] > 0 || out.Probes["clone-in-progress-HEAD"] > 0 {
+			// not a repository yet / HEAD is git's own "clone in progress" marker
+			// (refs/heads/.invalid), which git fsck reports as an invalid HEAD by design
+			out.Probe("git-fsck-skipped:clone-in-progress")
+			return out
+		}
+		if bulkWrite && p.CrashAt%8 != 0 {
+			// one of the hundreds of idx / rev / pack-stream writes before the pack is
+			// renamed into place: the image differs from its neighbours by the length
+			// of an unreferenced temporary or orphan file; git is asked about every
+			// eighth of them (go-git's own read path judges all)
+			out.Probe("git-fsck-skipped:bulk-write")
+			return out
+		}
+		if sym, msg := gitOracle(post, p, out.Probe); sym != "" {
 			out.Fail(fmt.Sprintf("C21|%s|%s|%s", p.Op, sym, crashOp), "%s (crash at mutation %d torn=%d: %s)", msg, p.CrashAt, p.Torn, crashOp)
 		}
 		out.Probe("git-fsck-run")
@@ -363,9 +660,27 @@ func execPlan(t *testing.T, pa any) (out core.Outcome) {
 }
 
 // oracle reopens the image with fresh values and checks the property.
-func oracle(post *simfs.Disk, b *base, p *Plan) (symptom, msg string) {
+func oracle(post *simfs.Disk, pre *preState, deleted map[string]bool, p *Plan, probe func(string)) (symptom, msg string) {
 	env, err := gen.Open(post, "/w", "verify", filesystem.Options{})
 	if err != nil {
+		// A clone starts from nothing. Until it has created HEAD there is no
+		// repository yet, which is what a crashed `git clone` leaves as well; that
+		// is accepted ONLY while the HEAD file does not exist at all and nothing
+		// that could be a reference exists either. From the creation of HEAD on
+		// (even as an empty file) the directory claims to be a repository and has
+		// to open.
+		if p.Op == "clone" && errors.Is(err, git.ErrRepositoryNotExists) && post.Lookup("/w/.git/HEAD") == "" && post.Lookup("/w/.git/packed-refs") == "" {
+			refFiles := 0
+			for _, e := range post.List("/w/.git/refs") {
+				if e.Kind != "dir" {
+					refFiles++
+				}
+			}
+			if refFiles == 0 {
+				probe("crash-in-clone-before-HEAD")
+				return "", ""
+			}
+		}
 		return "open-failed", fmt.Sprintf("git.Open after crash: %v", err)
 	}
 	defer env.Storage.Close()
@@ -373,7 +688,7 @@ func oracle(post *simfs.Disk, b *base, p *Plan) (symptom, msg string) {
 	if _, err := repo.Config(); err != nil {
 		return "config-unreadable", fmt.Sprintf("Config(): %v", err)
 	}
-	roots := append([]plumbing.Hash{}, b.roots...)
+	roots := append([]plumbing.Hash{}, pre.roots...)
 	iter, err := repo.Storer.IterReferences()
 	if err != nil {
 		return "refs-unlistable", fmt.Sprintf("IterReferences: %v", err)
@@ -397,6 +712,16 @@ func oracle(post *simfs.Disk, b *base, p *Plan) (symptom, msg string) {
 		case plumbing.SymbolicReference:
 			res, err := repo.Reference(ref.Name(), true)
 			if err != nil {
+				if ref.Name() == plumbing.HEAD && unbornOK(repo, ref, pre, p) {
+					// HEAD names a branch that does not exist yet, and did so before
+					// the operation (or is the marker a clone in progress carries)
+					if ref.Target() == plumbing.Invalid {
+						probe("clone-in-progress-HEAD")
+					} else {
+						probe("head-unborn-as-before")
+					}
+					continue
+				}
 				return "symref-unresolvable:" + refCat(ref.Name()), fmt.Sprintf("symbolic reference %s -> %s does not resolve: %v", ref.Name(), ref.Target(), err)
 			}
 			roots = append(roots, res.Hash())
@@ -411,8 +736,13 @@ func oracle(post *simfs.Disk, b *base, p *Plan) (symptom, msg string) {
 	}
 	// every reference that existed before and that this operation does not
 	// remove must still be readable (a crash may not make refs vanish)
-	for name := range b.model.Refs {
-		if (p.Op == "tag-delete" && name == "refs/tags/light") || (p.Op == "branch-delete" && name == "refs/heads/old") {
+	names := make([]string, 0, len(pre.refs))
+	for name := range pre.refs {
+		names = append(names, name)
+	}
+	sort.Strings(names)
+	for _, name := range names {
+		if deleted[name] {
 			continue
 		}
 		if _, err := repo.Storer.Reference(plumbing.ReferenceName(name)); err != nil {
@@ -499,6 +829,22 @@ func oracle(post *simfs.Disk, b *base, p *Plan) (symptom, msg string) {
 	return "", ""
 }
 
+// unbornOK reports whether an unresolvable symbolic HEAD is the legitimate
+// "unborn branch" state: its target is a well-formed branch name that does not
+// exist at all (no loose file, no packed entry), and either HEAD pointed at
+// that same unborn branch before the operation, or the operation is a clone
+// and the target is the marker go-git (like git) writes while a clone is in
+// progress. A torn "ref: refs/heads/ma" is neither.
+func unbornOK(repo *git.Repository, head *plumbing.Reference, pre *preState, p *Plan) bool {
+	if _, err := repo.Storer.Reference(head.Target()); !errors.Is(err, plumbing.ErrReferenceNotFound) {
+		return false
+	}
+	if pre.unborn != "" && head.Target().String() == pre.unborn {
+		return true
+	}
+	return p.Op == "clone" && head.Target() == plumbing.Invalid
+}
+
 func refCat(n plumbing.ReferenceName) string {
 	switch {
 	case n == plumbing.HEAD:
@@ -514,7 +860,20 @@ func refCat(n plumbing.ReferenceName) string {
 var errGit = errors.New("git")
 
 // gitOracle exports the image and asks git.
-func gitOracle(post *simfs.Disk) (string, string) {
+//
+// Two kinds of fsck lines are about things outside the repository under
+// judgement and are dropped before the verdict (counted as probes):
+//   - add-alternate: the alternate is an absolute path on the simulated disk
+//     (/alt/repo.git/objects) that does not exist next to the exported copy;
+//     git reports an unusable alternate ("unable to normalize alternate object
+//     path", "object directory ... does not exist") and carries on, exit 0.
+//   - worktree-add / worktree-remove: the metadata directory of the LINKED
+//     worktree (.git/worktrees/<name>/HEAD, ORIG_HEAD, gitdir, commondir) is
+//     written in place file by file and removed file by file, by go-git as by
+//     `git worktree add/remove`; a half-made or half-removed linked worktree is
+//     reported by fsck as "worktrees/<name>/HEAD: ...". The statement is about
+//     the repository: these kinds judge the main repository only.
+func gitOracle(post *simfs.Disk, p *Plan, probe func(string)) (string, string) {
 	dir, err := os.MkdirTemp("/var/tmp", "verif-c21-git-")
 	if err != nil {
 		return "", ""
@@ -529,7 +888,30 @@ func gitOracle(post *simfs.Disk) (string, string) {
 		o, err := cmd.CombinedOutput()
 		return string(o), err
 	}
-	if o, err := run("fsck", "--connectivity-only", "--no-dangling"); err != nil || strings.Contains(o, "error:") || strings.Contains(o, "fatal:") || strings.Contains(o, "missing ") || strings.Contains(o, "broken link") {
+	o, err := run("fsck", "--connectivity-only", "--no-dangling")
+	ignored := 0
+	if p.Op == "add-alternate" || p.Op == "worktree-add" || p.Op == "worktree-remove" {
+		var keep []string
+		for _, l := range strings.Split(o, "\n") {
+			switch {
+			case p.Op == "add-alternate" && (strings.Contains(l, "alternate")):
+				ignored++
+			case p.Op != "add-alternate" && strings.Contains(l, "worktrees/"+lwName+"/"):
+				ignored++
+			default:
+				keep = append(keep, l)
+			}
+		}
+		o = strings.Join(keep, "\n")
+		if ignored > 0 {
+			probe("git-fsck-lines-ignored:" + p.Op)
+			if !strings.Contains(o, "error") && !strings.Contains(o, "fatal") && !strings.Contains(o, "missing ") && !strings.Contains(o, "broken link") {
+				// the exit status reflected the ignored lines only
+				err = nil
+			}
+		}
+	}
+	if err != nil || strings.Contains(o, "error:") || strings.Contains(o, "fatal:") || strings.Contains(o, "missing ") || strings.Contains(o, "broken link") {
 		line := strings.SplitN(strings.TrimSpace(o), "\n", 2)[0]
 		return "git-fsck:" + gitClass(o), fmt.Sprintf("git fsck --connectivity-only: %v: %s", err, line)
 	}
@@ -541,6 +923,8 @@ func gitOracle(post *simfs.Disk) (string, string) {
 
 func gitClass(o string) string {
 	switch {
+	case strings.Contains(o, "bad shallow line"):
+		return "shallow"
 	case strings.Contains(o, "bad index file"), strings.Contains(o, "index file"):
 		return "index"
 	case strings.Contains(o, "invalid sha1 pointer"), strings.Contains(o, "not a valid"), strings.Contains(o, "bad ref"), strings.Contains(o, "badRefContent"), strings.Contains(o, "invalid HEAD"):
@@ -559,17 +943,24 @@ func TestCheck(t *testing.T) {
 	core.Main(t, core.Check{
 		ID:    "C21",
 		Level: "fault_enumeration",
-		Rule: "plan = generated repository (3-7 commits, side branch + merge, tags, optionally repacked / packed refs) x one mutating operation with generated arguments; " +
-			"each plan is expanded into one run per mutating disk operation k of that call (crash after k applied; for writes also two torn prefixes, for mkdir a partial path); " +
+		Rule: "plan = one mutating operation with generated arguments on generated state: (a) porcelain and storage kinds on a generated repository (3-7 commits, side branch + merge, tags, optionally repacked / packed refs; storage kinds may first be put into the state they need: packed refs, a stale packed value under a loose one, a redundant pack, an existing linked worktree); " +
+			"(b) network kinds on two generated repositories on two disks joined by simulated streams: fetch (client empty / holding a prefix / with a stale or a diverged remote-tracking ref / shallow and deepening; wildcard or explicit refspecs; tag modes; depth; prune; v0/v1/v2; client refs loose or packed), clone with checkout (default or single-branch, optional depth), push seen from the client, receive-pack seen from the server (1-4 commands out of fast-forward, create, forced non-fast-forward, annotated tag, two deletes; server refs loose or packed); " +
+			"each plan is expanded into one run per mutating disk operation k of that call on the crashing disk (crash after k applied; for writes also two torn prefixes, for mkdir a partial path); quick tier: long runs of identical bulk writes (idx/rev encoders, pack stream, loose-object removal) are sampled (edges + drawn), everything else enumerated; thorough: every k; " +
 			"non-trivial = the crash point was reached; distinct = distinct (plan, k, torn)",
 		Assumptions: []string{"crash = process stop: completed disk operations persist, the crashing write may be torn, nothing later happens (no power-loss/page-cache model: go-git never syncs)",
-			"the verifier is go-git's own read path on brand-new Storage values over a copy of the frozen image; thorough tier adds git fsck --connectivity-only on an exported copy"},
-		Real:    []string{"Worktree.Commit/Add/Checkout/Reset", "Repository.RepackObjects/Prune/SetConfig/CreateTag/DeleteTag", "Storage.PackRefs/RemoveReference/SetReference/SetShallow", "dotgit writers"},
-		Stub:    []string{"disk (simfs) with CrashAt/torn writes"},
-		Runs:    map[string]int{"quick": 320, "thorough": 8000},
+			"the verifier is go-git's own read path on brand-new Storage values over a copy of the frozen image; thorough tier adds git fsck --connectivity-only on an exported copy",
+			"network kinds: both peers are go-git; only one disk crashes and is judged (client for fetch/clone/push, server for receive-pack); workloads avoid the places where go-git orders disk writes by Go map iteration (one branch under a wildcard refspec, at most one tag, explicit push refspecs)",
+			"a clone that has not created HEAD yet has not created a repository; HEAD -> refs/heads/.invalid is the legitimate clone-in-progress state; the metadata of a linked worktree is not part of the judged repository"},
+		Real: []string{"Worktree.Commit/Add/Checkout/Reset", "Repository.RepackObjects/Prune/SetConfig/CreateTag/DeleteTag", "Storage.PackRefs/RemoveReference/SetReference/CheckAndSetReference/SetShallow/SetIndex/PackfileWriter/DeleteLooseObject/DeleteOldObjectPackAndIndex/AddAlternate/AppendReflog",
+			"x/plumbing/worktree Add/Remove", "Remote.Fetch / git.Clone / Remote.Push with negotiation, pack encode and ingestion", "transport.UploadPack (v0/v1/v2) and transport.ReceivePack on the peer", "dotgit writers"},
+		Stub:    []string{"disk (simfs) with CrashAt/torn writes, one per peer", "network (simnet streams)", "clock (synctest bubble) for the network kinds"},
+		Runs:    map[string]int{"quick": 280, "thorough": 2400},
 		NewPlan: func() any { return &Plan{} },
 		Gen:     genPlan,
 		Expand:  expand,
 		Exec:    execPlan,
+		RequiredProbes: []string{"crash-between-pack-rename-and-ref-update:fetch", "crash-between-pack-rename-and-ref-update:receive-pack", "crash-during-pack-write", "crash-during-shallow-write",
+			"crash-during-packed-refs-rewrite-by-remove", "crash-in-clone-before-HEAD", "clone-in-progress-HEAD", "head-unborn-as-before",
+			"plans:fetch", "plans:clone", "plans:receive-pack", "plans:push", "plans:remove-packed-ref", "plans:remove-stale-packed", "plans:packwriter", "plans:worktree-add"},
 	})
 }
